@@ -268,3 +268,5 @@ Proof.
   - eexists. reflexivity.
   - eexists. reflexivity.
 Qed.
+
+Print Assumptions tag_list_counts.
